@@ -261,6 +261,9 @@ func obligationInProp(ob *Obligation, prop string, closure map[string]bool, root
 	if !closure[fkey] {
 		return false
 	}
+	if ob.Class == "safe" && prop == "C17" {
+		return true // "HTML rendering of any snapshot succeeds": the helpers must not panic
+	}
 	if ob.Class == "safe" || ob.Class == "dec" {
 		return false // panic-freedom and termination are C03's (tagged above)
 	}
@@ -371,7 +374,7 @@ func cmdCheck(args []string) int {
 			}
 		}
 	}
-	if (*prop == "C06" || *prop == "C14" || *prop == "") && *only == "" {
+	if *only == "" {
 		for _, ob := range P.sweepObligations() {
 			for _, p := range ob.Props {
 				if p == *prop || *prop == "" {
